@@ -211,6 +211,12 @@ func newVC(eng *Engine, mode Mode) *VC {
 		vc.decl("(assert (forall ((x Real) (y Real)) (! (=> (<= x y) (<= (rnd64 x) (rnd64 y))) :pattern ((rnd64 x) (rnd64 y)))))")
 		// relative error of round-to-nearest (normal range) plus the subnormal absolute error
 		vc.decl("(assert (forall ((x Real)) (! (and (<= (rnd32 x) (+ x (* (/ 1.0 16777216.0) (ite (>= x 0.0) x (- x))) (/ 1.0 1000000000000000000000000000000000000000000000.0))) (>= (rnd32 x) (- x (* (/ 1.0 16777216.0) (ite (>= x 0.0) x (- x))) (/ 1.0 1000000000000000000000000000000000000000000000.0)))) :pattern ((rnd32 x)))))")
+		// round-to-nearest-even is odd: rnd(-x) = -rnd(x)
+		vc.decl("(assert (forall ((x Real)) (! (= (rnd64 (- x)) (- (rnd64 x))) :pattern ((rnd64 (- x))))))")
+		vc.decl("(assert (forall ((x Real)) (! (= (rnd32 (- x)) (- (rnd32 x))) :pattern ((rnd32 (- x))))))")
+		// rounding is idempotent
+		vc.decl("(assert (forall ((x Real)) (! (= (rnd64 (rnd64 x)) (rnd64 x)) :pattern ((rnd64 (rnd64 x))))))")
+		vc.decl("(assert (forall ((x Real)) (! (= (rnd32 (rnd32 x)) (rnd32 x)) :pattern ((rnd32 (rnd32 x))))))")
 		vc.decl("(assert (= (rnd32 0.0) 0.0))")
 		vc.decl("(assert (= (rnd64 0.0) 0.0))")
 		vc.usedAssumptions["A-RND"] = true
